@@ -497,6 +497,9 @@ func cliWork(line string) string {
 		cmd := exec.CommandContext(ctx, bin, argv...)
 		cmd.Dir = filepath.Join(home, filepath.FromSlash(s.cwd))
 		cmd.Env = []string{"HOME=" + home, "PATH=" + nobin, "NO_COLOR=1", "TERM=dumb", "LOG=" + logPath}
+		if d := os.Getenv("GOCOVERDIR"); d != "" {
+			cmd.Env = append(cmd.Env, "GOCOVERDIR="+d) // a -cover build of the binary (coverage report of the evidence)
+		}
 		var so, se bytes.Buffer
 		cmd.Stdout, cmd.Stderr = &so, &se
 		runErr := cmd.Run()
